@@ -300,6 +300,18 @@ func rulesC03(cx *Ctx) []Obligation {
 		}
 	}
 	jv := fmt.Sprintf("iv%d", jID)
+	if T == 0 && ild != nil && ild.S.Counted && ild.S.SingleExit && ild.S.Step == 1 && ild.S.StartConst != nil && *ild.S.StartConst == 0 && ild.S.Op == token.LSS && ild.Bound != nil && len(ild.Bound.LenOf) == 1 {
+		// the inner loop ranges over the sub-slice itself (a packing helper taking the slice): its trip count is the
+		// width of the window, read off the slice bounds j·T … (j+1)·T
+		want := sm[1] + "[s:" + sm[2] + ":" + sm[3] + "]"
+		if ild.Bound.LenOf[0] == want {
+			for _, re := range []*regexp.Regexp{regexp.MustCompile(`^\*\(` + jv + `,(\d+)\)$`), regexp.MustCompile(`^\*\((\d+),` + jv + `\)$`)} {
+				if m := re.FindStringSubmatch(sm[2]); m != nil {
+					T = int64(atoi(m[1]))
+				}
+			}
+		}
+	}
 	loOK := sm[2] == fmt.Sprintf("*(%s,%d)", jv, T) || sm[2] == fmt.Sprintf("*(%d,%s)", T, jv)
 	hiOK := sm[3] == fmt.Sprintf("*(+(%s,1),%d)", jv, T) || sm[3] == fmt.Sprintf("+(*(%s,%d),%d)", jv, T, T) || sm[3] == fmt.Sprintf("*(%d,+(%s,1))", T, jv)
 	if T == 0 || !loOK || !hiOK || T*pubLen != 16 {
